@@ -603,7 +603,7 @@ func cases(tier string, seed int64) []fw.Case {
 	}
 	stakes := [][]int64{{40e6, 30e6, 20e6, 10e6}, {25e6, 25e6, 25e6, 25e6}, {30e6, 20e6, 20e6, 15e6, 15e6}}
 	for i := 0; i < n; i++ {
-		omni := c09.Params{Stakes: stakes[i%len(stakes)], NChains: 1 + i%2, Blocks: blocks, Focus: []string{"mixed", "consensus", "skyway", "jobs"}[i%4], Hostile: 35}
+		omni := c09.Params{Stakes: stakes[i%len(stakes)], NChains: 1 + i%2, Blocks: blocks, Focus: []string{"mixed", "consensus", "skyway", "jobs"}[i%4], Hostile: 35, HonestValsetAt: []int{70, 0, 120}[i%3]}
 		twins := []twinSpec{
 			{Name: "base-env-unset", AllEnv: "unset", Repeat: true},
 			{Name: "env-set", AllEnv: "set", SetEnv: map[string]string{"TZ": "Pacific/Kiritimati", "GOMAXPROCS": "1", "GOGC": "20", "LANG": "tr_TR.UTF-8"}},
